@@ -247,21 +247,9 @@ impl Exact {
         }
     }
 
-    /// distance from `q` to the curve: coarse sampling, then local refinement around the best sample.
-    fn dist_to(&self, q: V) -> f64 {
-        const N: usize = 384;
-        let mut best = (f64::INFINITY, 0usize);
-        for i in 0..=N {
-            let d = norm(sub(self.eval(i as f64 / N as f64), q));
-            if d < best.0 {
-                best = (d, i);
-            }
-        }
-        let (mut lo, mut hi) = (
-            (best.1 as f64 - 1.0).max(0.0) / N as f64,
-            (best.1 as f64 + 1.0).min(N as f64) / N as f64,
-        );
-        for _ in 0..48 {
+    fn refine(&self, q: V, lo: f64, hi: f64) -> f64 {
+        let (mut lo, mut hi) = (lo, hi);
+        for _ in 0..40 {
             let (m1, m2) = (lo + (hi - lo) / 3.0, hi - (hi - lo) / 3.0);
             if norm(sub(self.eval(m1), q)) < norm(sub(self.eval(m2), q)) {
                 hi = m2;
@@ -269,7 +257,44 @@ impl Exact {
                 lo = m1;
             }
         }
-        best.0.min(norm(sub(self.eval((lo + hi) / 2.0), q)))
+        norm(sub(self.eval((lo + hi) / 2.0), q))
+    }
+}
+
+const NS: usize = 1024;
+
+/// an exact curve with its coarse samples (computed once)
+#[derive(Clone)]
+struct Sampled {
+    cv: Exact,
+    pts: Vec<V>,
+}
+
+impl Sampled {
+    fn new(cv: Exact) -> Self {
+        let pts = (0..=NS).map(|i| cv.eval(i as f64 / NS as f64)).collect();
+        Self { cv, pts }
+    }
+
+    fn eval(&self, t: f64) -> V {
+        self.cv.eval(t)
+    }
+
+    /// distance from `q` to the curve: the coarse samples' local minima (best four), each refined by ternary search.
+    fn dist_to(&self, q: V) -> f64 {
+        let d: Vec<f64> = self.pts.iter().map(|p| norm(sub(*p, q))).collect();
+        let mut mins: Vec<(f64, usize)> = (0..=NS)
+            .filter(|&i| (i == 0 || d[i] <= d[i - 1]) && (i == NS || d[i] <= d[i + 1]))
+            .map(|i| (d[i], i))
+            .collect();
+        mins.sort_by(|a, b| a.0.partial_cmp(&b.0).unwrap());
+        let mut best = f64::INFINITY;
+        for &(di, i) in mins.iter().take(4) {
+            let lo = (i as f64 - 1.0).max(0.0) / NS as f64;
+            let hi = (i as f64 + 1.0).min(NS as f64) / NS as f64;
+            best = best.min(di).min(self.cv.refine(q, lo, hi));
+        }
+        best
     }
 }
 
@@ -301,7 +326,7 @@ fn arc_through(a: V, b: V, c: V) -> Option<Exact> {
 
 struct Seg {
     /// acceptable exact curves for this segment (any one of a group must fit), with the allowed deviation
-    alts: Vec<(Vec<Exact>, f64, f64)>,
+    alts: Vec<(Vec<Sampled>, f64, f64)>,
 }
 
 fn segments(mode: GameMode, pts: &[PathControlPoint], slack: f64) -> Vec<Seg> {
@@ -314,9 +339,13 @@ fn segments(mode: GameMode, pts: &[PathControlPoint], slack: f64) -> Vec<Seg> {
         let vs: Vec<V> = pts[start..=i].iter().map(|p| v(p.pos)).collect();
         if vs.len() >= 2 {
             let kind = pts[start].path_type.map_or(SplineType::Linear, |t| t.kind);
-            let bez = (vec![Exact::Bezier(vs.clone())], 0.5 + slack, 0.5 + slack);
+            // flat pieces have second differences <= 2 * BEZIER_TOLERANCE = 0.5; the subdivided control polygon of a degree-n
+            // piece is then within n(n-1)/32 * 0.5 of the curve: bound 0.5 * max(1, n(n-1)/16)
+            let deg = (vs.len() - 1) as f64;
+            let btol = 0.5 * (deg * (deg - 1.0) / 16.0).max(1.0);
+            let bez = (vec![Sampled::new(Exact::Bezier(vs.clone()))], btol + slack, btol + slack);
             let alts = match kind {
-                SplineType::Linear => vec![(vec![Exact::Poly(vs)], slack, slack)],
+                SplineType::Linear => vec![(vec![Sampled::new(Exact::Poly(vs))], slack, slack)],
                 SplineType::BSpline => vec![bez],
                 SplineType::PerfectCurve => {
                     let mut alts = Vec::new();
@@ -327,7 +356,9 @@ fn segments(mode: GameMode, pts: &[PathControlPoint], slack: f64) -> Vec<Seg> {
                                 let cr = cross(sub(vs[1], vs[0]), sub(vs[2], vs[0])).abs();
                                 let need = if r > 0.05 { sweep.abs() / (2.0 * (1.0 - 0.1 / r).acos()) } else { 2.0 };
                                 must_arc = cr > 1.0 && need < 900.0;
-                                alts.push((vec![arc], slack + 1e-6 * r, 0.1 + slack + 1e-6 * r));
+                                // n = ceil(range/div) points make n-1 intervals: the per-interval angle can reach 2*div for n = 2,
+                                // so the sagitta bound derived from the constants is 0.1 * (n/(n-1))^2 <= 0.4
+                                alts.push((vec![Sampled::new(arc)], 0.1 + slack + 1e-5 * r, 0.4 + slack + 1e-5 * r));
                             }
                         }
                     }
@@ -353,7 +384,7 @@ fn segments(mode: GameMode, pts: &[PathControlPoint], slack: f64) -> Vec<Seg> {
                             norm((g(v1.0, v2.0, v3.0, v4.0), g(v1.1, v2.1, v3.1, v4.1)))
                         };
                         chord = chord.max(dd(0.0).max(dd(1.0)) / (8.0 * 50.0 * 50.0));
-                        spans.push(Exact::Catmull([v1, v2, v3, v4]));
+                        spans.push(Sampled::new(Exact::Catmull([v1, v2, v3, v4])));
                     }
                     let simpl = if matches!(mode, GameMode::Osu) { 6.0 } else { 0.0 };
                     vec![(spans, slack, chord + simpl + slack)]
@@ -387,21 +418,29 @@ fn c17(toks: &[&str]) -> String {
         return "FAIL path does not start at the first control point".into();
     }
     let last = v(req.pts[req.pts.len() - 1].pos);
-    let simplified = matches!(req.mode, GameMode::Osu) && has_catmull(&req.pts);
-    if norm(sub(path[path.len() - 1], last)) > slack + if simplified { 0.0 } else { 0.0 } {
+    let segs = segments(req.mode, &req.pts, slack);
+    // exact for linear / Bezier / Catmull (the control point itself, or the polynomial at t = 1); an arc's last point is
+    // computed from centre, radius and angle: allowed the arc tolerance
+    let end_tol = segs.last().map_or(slack, |s| s.alts.iter().map(|a| a.1).fold(slack, f64::max));
+    if norm(sub(path[path.len() - 1], last)) > end_tol {
         return format!("FAIL path does not end at the last control point ({:?} vs {:?})", path[path.len() - 1], last);
     }
-    let segs = segments(req.mode, &req.pts, slack);
     if segs.is_empty() {
         return "OK single-point".into();
     }
-    // choose per segment the alternative that the path follows best (Bezier fallback vs arc)
-    let mut chosen: Vec<(Vec<Exact>, f64, f64)> = Vec::new();
-    for s in &segs {
+    // margins[v][s][a] = distance of vertex v to alternative a of segment s, minus its tolerance
+    let margin = |q: V, alt: &(Vec<Sampled>, f64, f64)| alt.0.iter().map(|cv| cv.dist_to(q) - alt.1).fold(f64::INFINITY, f64::min);
+    let margins: Vec<Vec<Vec<f64>>> = path
+        .iter()
+        .map(|q| segs.iter().map(|s| s.alts.iter().map(|a| margin(*q, a)).collect()).collect())
+        .collect();
+    // choose per segment the alternative (arc vs Bezier fallback) that fits best in both directions
+    let mut chosen: Vec<(Vec<Sampled>, f64, f64)> = Vec::new();
+    let mut chosen_idx: Vec<usize> = Vec::new();
+    for (si, s) in segs.iter().enumerate() {
         let mut best: Option<(f64, usize)> = None;
         for (ai, (curves, _, tol_rev)) in s.alts.iter().enumerate() {
-            // one-sided: how well do samples of this alternative sit on the path?
-            let mut worst = 0.0f64;
+            let mut worst = f64::NEG_INFINITY;
             for cv in curves {
                 for j in 0..=32 {
                     let q = cv.eval(j as f64 / 32.0);
@@ -409,28 +448,28 @@ fn c17(toks: &[&str]) -> String {
                     worst = worst.max(d - tol_rev);
                 }
             }
+            if s.alts.len() > 1 {
+                for m in &margins {
+                    let mut here = m[si][ai];
+                    for (sj, ms) in m.iter().enumerate() {
+                        if sj != si {
+                            here = ms.iter().copied().fold(here, f64::min);
+                        }
+                    }
+                    worst = worst.max(here);
+                }
+            }
             if best.map_or(true, |b| worst < b.0) {
                 best = Some((worst, ai));
             }
         }
+        chosen_idx.push(best.unwrap().1);
         chosen.push(s.alts[best.unwrap().1].clone());
     }
     // every path vertex lies within the bound of some segment's exact curve
-    let mut maxdev = 0.0f64;
     for (vi, q) in path.iter().enumerate() {
-        let mut ok = false;
-        let mut bestd = f64::INFINITY;
-        for (curves, tol_fwd, _) in &chosen {
-            for cv in curves {
-                let d = cv.dist_to(*q);
-                bestd = bestd.min(d - tol_fwd);
-                if d <= *tol_fwd {
-                    ok = true;
-                }
-            }
-        }
-        maxdev = maxdev.max(bestd);
-        if !ok {
+        let bestd = (0..segs.len()).map(|si| margins[vi][si][chosen_idx[si]]).fold(f64::INFINITY, f64::min);
+        if !(bestd <= 0.0) {
             return format!("FAIL vertex {vi} {q:?} is {bestd} beyond the bound of every exact segment");
         }
     }
@@ -447,10 +486,6 @@ fn c17(toks: &[&str]) -> String {
                 }
             }
         }
-    }
-    // a joint vertex produced identically by two consecutive segments appears once
-    for w in c.path().windows(2) {
-        let _ = w;
     }
     "OK".into()
 }
